@@ -1,13 +1,7 @@
-"""Per-property configuration of the checks (see DESIGN.md section 7)."""
-
-COMMON_TB = [
-    "Coq 8.16.1 kernel (coqc, full .vo build); vm_compute used for case evaluation and refuted-witness lemmas; native_compute not used",
-    "Go harness (/verif/harness, overlaid with go test -overlay under build tag verif) and its generators",
-    "cases_*.v printers in /verif/harness/verifutil (Go values -> Coq terms)",
-]
+"""C09 check configuration."""
 
 
-def setup(register):
+def setup(register, COMMON_TB):
     register(
         "C09", coq="C09", pkg="./internal/framework/status/", test="TestVerifC09",
         rule="sequential schedules (size ramps with the index) and concurrent schedules (2-3 submitter goroutines racing one "
